@@ -100,7 +100,9 @@ def schema_xml(plan):
     for t in plan["types"]:
         out.extend(_type_xml(t, plan["slots"].get(t["name"], ())))
     for p in plan.get("schema_imports", ()):
-        out.append('  <import package="%s"/>' % p)
+        # the default component file may be named explicitly: one component
+        out.append('  <import package="%s"%s/>' % (
+            p, ' file="component.xml"' if plan.get("explicit_file") else ""))
     out.append('  <key name="topv" datatype="integer" default="0"/>')
     for s in plan["slots"]["$top"]:
         out.append(_slot_xml(s))
@@ -111,7 +113,8 @@ def schema_xml(plan):
 def component_xml(comp):
     out = ["<component>"]
     for p in comp.get("imports", ()):
-        out.append('  <import package="%s"/>' % p)
+        out.append('  <import package="%s"%s/>' % (
+            p, ' file="component.xml"' if comp.get("explicit_file") else ""))
     for i, t in enumerate(comp["types"]):
         out.extend(_type_xml(t))
         if comp.get("broken") and i == 0:
@@ -434,6 +437,9 @@ def generate(rng, tier, index):
     if npk and rng.random() < 0.15 and not any(
             c["broken"] for c in plan["components"].values()):
         plan["schema_imports"] = ["zcsim_p%d" % (npk - 1)]
+    plan["explicit_file"] = rng.random() < 0.4
+    for c in plan["components"].values():
+        c["explicit_file"] = rng.random() < 0.4
     all_types = plan["types"] + comp_types
     counter = [0]
     plan["slots"]["$top"] = _gen_slots(rng, plan, "$top", all_types, counter)
